@@ -60,7 +60,8 @@ def scenario(rng):
         q = ["LIST", "LIST #sec", "LIST #pub1,#sec", "LIST #sec,#pub2", "NAMES", "NAMES #sec", "NAMES #pub1,#sec",
              "NAMES #sec,#nonexistent", "WHO #sec", "WHO *", "WHO #s*", "WHO *sec*", "WHOIS " + members[0],
              "WHOIS %s,%s" % (members[0], "p3"), "WHOIS *", "WHOIS p?", "WHOIS h*", "WHO " + members[0],
-             "WHO p*", "WHO *!*@127.0.0.1", "WHO #pub1", "NAMES #pub1", "WHO #nonexistent", "LIST #nonexistent"]
+             "WHO p*", "WHO *!*@127.0.0.1", "WHO #pub1", "NAMES #pub1", "WHO #nonexistent", "LIST #nonexistent",
+             "WHOIS %s,obs" % members[0], "WHOIS obs,%s" % members[0], "NAMES #sec,#pub1,#sec", "LIST #sec,#sec"]
         sc["speak"] = ["PRIVMSG #sec :psst", "NOTICE #sec :psst", "PRIVMSG @#sec :psst", "PRIVMSG ~&@%+#sec :psst"]
         sc["sec_members"] = members
     else:
@@ -79,7 +80,9 @@ def scenario(rng):
             hid.append(("p3", "MODE #pub2 +v inv"))
         q = ["NAMES", "NAMES #pub2", "NAMES #pub1,#pub2", "WHO #pub2", "WHO *", "WHO inv", "WHO i*", "WHO in?",
              "WHO *nv", "WHO *!*@127.0.0.1", "WHO *!~ivy@*", "WHO Iv*", "WHO *Invisible", "WHOIS inv", "WHOIS i*",
-             "WHOIS inv,p1", "WHOIS *", "WHOIS ??v", "WHO p3", "WHOIS p3", "WHO #pub1"]
+             "WHOIS inv,p1", "WHOIS *", "WHOIS ??v", "WHO p3", "WHOIS p3", "WHO #pub1",
+             # the requester's own nickname next to the hidden one
+             "WHOIS inv,obs", "WHOIS obs,inv", "WHOIS i*,obs", "WHOIS *,obs", "WHOIS obs", "WHO obs", "WHOIS obs,obs,inv"]
         sc["speak"] = []
     rng.shuffle(q)
     sc["queries"] = q[:rng.choice([10, 14, 18])]
